@@ -388,6 +388,8 @@ pub(super) fn derive_schema(input: TokenStream) -> syn::Result<TokenStream> {
 
                 let is_newtype = matches!(&v.fields, Fields::Unnamed(u) if u.unnamed.len() == 1)
                     && variant_attrs.openapi.schema_with.is_none();
+                let is_unit = matches!(&v.fields, Fields::Unit)
+                    && variant_attrs.openapi.schema_with.is_none();
 
                 let mut schema = if let Some(schema_with) = &variant_attrs.openapi.schema_with {
                     let schema_with = syn::parse_str::<Path>(schema_with)?;
@@ -438,6 +440,14 @@ pub(super) fn derive_schema(input: TokenStream) -> syn::Result<TokenStream> {
                         let t = LitStr::new(t, Span::call_site());
                         quote! {
                             #schema
+                                .property(#t, ::ohkami::openapi::string().enumerates([#tag]))
+                        }
+                    }
+
+                    (Some(t), Some(_), _) if is_unit => {/* Adjacently tagged: a unit variant has no content */
+                        let t = LitStr::new(t, Span::call_site());
+                        quote! {
+                            ::ohkami::openapi::object()
                                 .property(#t, ::ohkami::openapi::string().enumerates([#tag]))
                         }
                     }
